@@ -240,6 +240,24 @@ func TestVerifBoundedLongForm(t *testing.T) {
 				return
 			}
 		}
+		// a create request handed in with another spelling is answered with the same (canonical) DID
+		for name, alt := range map[string][]byte{
+			"canonical":    raw,
+			"whitespace":   []byte(strings.Replace(string(raw), ":", " : ", 3)),
+			"member-order": []byte(reordered),
+			"indent":       append([]byte("\n  "), append(append([]byte{}, raw...), '\n')...),
+		} {
+			cases++
+			pr, err := v.sidetreeDocHandler.ProcessOperation(alt)
+			if err != nil {
+				c17Fail("process", "create request (%s spelling) refused: %v", name, err)
+				return
+			}
+			if id, _ := pr.Document["id"].(string); id != did {
+				c17Fail("process.id", "create request (%s spelling) answered with a DID that is not the canonical long form: ...%s", name, tail(id))
+				return
+			}
+		}
 		// other namespaces / shapes
 		for name, alt := range map[string]string{
 			"prefix-sharing method": "did:" + defaultDIDMethod + "x:" + parts[2] + ":" + parts[3],
